@@ -404,6 +404,8 @@ def ak_probe_worker(job):
         # four x/px-y/py pairings, generic records, and generic records with EXTRA fields named like momentum synonyms (which must be ignored)
         import numpy
         rname, names, extra = case
+        if rname.startswith("Vector"):
+            src = src.replace(".mass", ".tau")          # generic records have no momentum-spelled properties
         cols = {nm: numpy.array([row[j] for row in rows]) for j, nm in enumerate(names)}
         cols.update({nm: numpy.array([100.0 + 3 * q for q in range(len(rows))]) for nm in extra})
         arr = ak.unflatten(ak.zip(cols, with_name=rname), [2, 0, 3, 1])
@@ -627,6 +629,8 @@ def correspondence(ctx):
                 "import sys; sys.path.insert(0, %r); sys.path.insert(0, %r)\nfrom harness import c07\n"
                 "_, i, c = c07.mutation_probe_worker(%r)\nassert c07.same(i, c), f'interpreter {i} compiled {c}'\n" % (C.VERIF, C.VERIF + "/tools", (tok, tokw, label, ints)))})
     for src, sig, interp, comp in akres:
+        if interp[0] == "raises" and comp[0] == "raises":
+            continue          # the interpreter itself rejects the program: nothing to compare
         if not same(interp, comp):
             dis.append(f"awkward-in-numba probe on {sig}: interpreter {interp}, compiled {comp}: {src.strip()[:80]!r}")
             fails.append({"key": "numba-awkward-probe", "what": dis[-1][:300], "code": None})
